@@ -6,6 +6,8 @@ import gen as G
 import shapes as S
 
 PID = 'C11'
+FLOAT_KINDS = {'icurve', 'isurf', 'acurve'}      # float-mode companion (core.float_companion)
+FLOAT_TOL = 1e-6
 STATS = G.STATS
 PARTIAL = [
     "non-singularity of the collocation matrix / of N^T N (Schoenberg-Whitney / total positivity) is a hypothesis: the theorems say 'whenever lu_solve returns'; the harness checks that it does return on every generated data set",
